@@ -46,7 +46,8 @@ type Cand struct {
 	GasLimit  string `json:"gas_limit,omitempty"`     // "" = parent's; "+k"/"-k" relative to parent; absolute otherwise
 	GasUsedOv int64  `json:"gas_used_over,omitempty"` // gasUsed = gasLimit + this (<=0 allowed)
 	ExtraLen  int    `json:"extra"`
-	NumDelta  int64  `json:"num_delta"` // number = parent + 1 + this
+	NumDelta  int64  `json:"num_delta"`          // number = parent + 1 + this
+	NumWrap   int    `json:"num_wrap,omitempty"` // number = parent + 1 + NumWrap * 2^64 (same low 64 bits, not the successor)
 	Uncle     bool   `json:"uncle,omitempty"`
 }
 
@@ -181,6 +182,9 @@ func genCand(rng *kernel.RNG) Cand {
 		c.GasUsedOv = []int64{0, 1, 2, -1}[rng.Intn(4)]
 	case 9:
 		c.NumDelta = []int64{1, -1, 2}[rng.Intn(3)]
+		if rng.Bool(0.4) {
+			c.NumDelta, c.NumWrap = 0, []int{1, 2, 1 << 20}[rng.Intn(3)]
+		}
 	case 10:
 		c.Uncle = true
 		if rng.Bool(0.5) {
@@ -444,6 +448,14 @@ func execC13Rules(p *C13Plan, col *kernel.Collector) []kernel.Violation {
 		want := other
 		if future && other == "" {
 			want = "future"
+		}
+		if c.NumWrap > 0 {
+			// a number that agrees with parent+1 only in its low 64 bits
+			h.Number = new(big.Int).Add(h.Number, new(big.Int).Lsh(big.NewInt(int64(c.NumWrap)), 64))
+			if want == "" {
+				want = "number is not the parent's plus one"
+			}
+			col.Inc("probe_number_beyond_64_bits")
 		}
 		var err error
 		var panicked any
@@ -878,7 +890,15 @@ func execC13Uncles(p *C13Plan, col *kernel.Collector) []kernel.Violation {
 	for i, h := range chain[:9] {
 		r.byHash[h.Hash()] = h
 		d := 9 - i
-		r.blocks[h.Hash()] = types.NewBlockWithHeader(h).WithBody(nil, ancestorUncles[d])
+		// as the node's store hands them out: Block.SetVersion stamps the uncles
+		// with the including block's version, not with their own
+		var stamped []*types.Header
+		for _, u := range ancestorUncles[d] {
+			cp := types.CopyHeader(u)
+			cp.Version = h.Version
+			stamped = append(stamped, cp)
+		}
+		r.blocks[h.Hash()] = types.NewBlockWithHeader(h).WithBody(nil, stamped)
 	}
 	r.mu.Unlock()
 	blk := types.NewBlockWithHeader(incl).WithBody(nil, uncles)
